@@ -347,7 +347,9 @@ PROPS = {
         "groups": [{"name": "C16", "quick": 6000, "thorough": 200000}, {"name": "C07", "quick": 160, "thorough": 4000, "workers": 16},
                    {"name": "C16x", "quick": 0, "thorough": 7, "workers": 1},
                    # concurrent keys, loads and resizes: every frame as tall as the state says when it is drawn
-                   {"name": "C08", "quick": 24, "thorough": 600, "workers": 12}],
+                   {"name": "C08", "quick": 24, "thorough": 600, "workers": 12},
+                   # the program itself (main.go as shipped) on a pseudo terminal that is resized and typed on
+                   {"name": "mainpty", "quick": 24, "thorough": 600, "workers": 8}],
         "rule": "prefix/centered/suffix of 0..8 styled lines each x heights 1..16; one layout in four with parts of nothing, of up to 40 styled lines, of 100..500 rows or of up to 300 empty lines above, at and below the cursor x heights 1..4, around the size of the centre and of centre + twice the part above / below (where the layout changes its case), the sum of all parts, 2..61 and 100..999; "
                 "ReplaceLastLine on frames of one line, of empty lines only and of hundreds of lines with an empty or a styled status line; status-line SetLength on raw text (control characters, often exactly as long as the width); the C07 sessions (all frames judged: tiny terminals, very tall items, every status line, hook output variants, loading frames drawn during held loads) and the C08 stress (frame height against the state's height at drawing time); "
                 "thorough: C16x = every geometry of 0..7 lines per part (0 = the empty string) x heights 1..16; non-trivial = height exceeds the centred text (buffers are computed); distinct by op content",
